@@ -356,6 +356,12 @@ func runC13(c *Ctx) {
 	nTok := tokenDropAudit(c, "C13-R5", []string{dbPkg})
 	c.info("C13-R5", "tokenisations-examined", token.NoPos, itoa(nTok)+" positional tokenisations in "+dbPkg)
 	c.floor("C13-R5", 1)
+
+	// ---- R6 placeholders and bound values correspond
+	c.rule("C13-R6", "ORD/def-use: in every loop of pkg/database that collects bound values ([]interface{} appends), an iteration that can bind a list of unknown length (append(args, vs...)) never hands a number derived from the loop's position counter to a call (fmt.Sprintf(\"$%d\"), a placeholder helper): placeholder numbers come from len(args) there. Loops that bind exactly one value per iteration may number by position")
+	nLoops := placeholderNumberingAudit(c, "C13-R6", []string{dbPkg})
+	c.Sites["C13-R6#value-collecting-loops"] = nLoops
+	c.ob("C13-R6", dbPkg+"#value-collecting-loops-examined", token.NoPos, nLoops >= 4, "fewer than 4 loops that collect bound values found in pkg/database: the rule no longer matches the code base")
 }
 
 func shortAll(xs []string) []string {
@@ -726,4 +732,106 @@ func onlyThrough(v, root, avoid ssa.Value) bool {
 		return false
 	}
 	return !walk(v, 0)
+}
+
+// placeholderNumberingAudit (C13-R6): a statement's placeholders $1..$n and its bound values correspond one to one.
+// Inside a loop that collects bound values, numbering placeholders by the loop's position counter is only right when
+// every iteration binds exactly one value. Where an iteration can bind a list of unknown length (append(args, vs...)),
+// any number derived from the position counter that is handed on (to fmt.Sprintf or a helper) must come from the
+// number of values bound so far (len(args)) instead - otherwise a later placeholder reuses the number of a list
+// element, and a value supplied by the request is compared where a value fixed by the server was meant.
+func placeholderNumberingAudit(c *Ctx, rule string, rels []string) int {
+	n := 0
+	for _, rel := range rels {
+		for _, fn := range c.srcFuncs(rel) {
+			for li, lp := range naturalLoops(fn) {
+				// appends to a []interface{} inside the loop
+				var spread []*ssa.Call
+				single := 0
+				for b := range lp.body {
+					for _, ins := range b.Instrs {
+						call, ok := ins.(*ssa.Call)
+						if !ok || callName(call) != "builtin.append" || len(call.Call.Args) < 2 {
+							continue
+						}
+						sl, ok := call.Type().Underlying().(*types.Slice)
+						if !ok {
+							continue
+						}
+						if _, isIface := sl.Elem().Underlying().(*types.Interface); !isIface {
+							continue
+						}
+						// one element: the variadic argument is a slice of a fresh one-element array
+						one := false
+						if s2, ok := call.Call.Args[1].(*ssa.Slice); ok {
+							if al, ok := s2.X.(*ssa.Alloc); ok {
+								if at, ok := al.Type().Underlying().(*types.Pointer).Elem().Underlying().(*types.Array); ok && at.Len() == 1 {
+									one = true
+								}
+							}
+						}
+						if one {
+							single++
+						} else {
+							spread = append(spread, call)
+						}
+					}
+				}
+				if single+len(spread) == 0 {
+					continue
+				}
+				n++
+				if len(spread) == 0 {
+					continue
+				}
+				// numbers derived from the loop's position counter that leave the iteration through a call
+				isCounter := func(v ssa.Value) bool {
+					return derivesFrom(v, func(x ssa.Value) bool {
+						ph, ok := x.(*ssa.Phi)
+						return ok && ph.Block() == lp.head && isIntKind(ph.Type())
+					})
+				}
+				fromLen := func(v ssa.Value) bool {
+					return derivesFrom(v, func(x ssa.Value) bool {
+						cl, ok := x.(*ssa.Call)
+						if !ok || callName(cl) != "builtin.len" {
+							return false
+						}
+						sl, ok := cl.Call.Args[0].Type().Underlying().(*types.Slice)
+						if !ok {
+							return false
+						}
+						_, isIface := sl.Elem().Underlying().(*types.Interface)
+						return isIface
+					})
+				}
+				k := 0
+				for b := range lp.body {
+					for _, ins := range b.Instrs {
+						call, ok := ins.(*ssa.Call)
+						if !ok || callName(call) == "builtin.append" || callName(call) == "builtin.len" {
+							continue
+						}
+						for _, a := range call.Call.Args {
+							v := a
+							if mi, ok := v.(*ssa.MakeInterface); ok {
+								v = mi.X
+							}
+							if !isIntKind(v.Type()) || !isCounter(v) || fromLen(v) {
+								continue
+							}
+							// indexing helpers (x[i]) are not calls; a counter handed to a call is a number put to use
+							k++
+							c.ob(rule, fnKey(fn)+"#loop-"+itoa(li+1)+"-placeholder-numbered-by-bound-values-"+itoa(k), call.Pos(), false,
+								"this loop can bind a list of values in one iteration (append(args, vs...) at "+c.pos(spread[0].Pos())+") but hands "+short(callName(call))+" a number derived from the iteration counter: after a list of k values the following placeholders are numbered k-1 too low, so `role IN ($1, $2) AND tenant = $2` compares the tenant with a list element supplied by the caller")
+						}
+					}
+				}
+				if k == 0 {
+					c.ob(rule, fnKey(fn)+"#loop-"+itoa(li+1)+"-placeholder-numbered-by-bound-values", spread[0].Pos(), true, "")
+				}
+			}
+		}
+	}
+	return n
 }
